@@ -170,7 +170,7 @@ pub fn eval_from_bytes_bitcoin(bytes: &[u8], version_id: u8) -> EvaluatedScript 
         EvaluatedScript::new(address, ScriptPattern::Pay2Taproot)
     } else if script.is_witness_program() {
         EvaluatedScript::new(address, ScriptPattern::WitnessProgram)
-    } else if script.is_multisig() {
+    } else if is_bare_multisig(script) {
         EvaluatedScript::new(address, ScriptPattern::Pay2MultiSig)
     } else {
         EvaluatedScript::new(address, ScriptPattern::NotRecognised)
@@ -195,6 +195,16 @@ fn p2pk_to_string(script: &Script, network: Network) -> Option<String> {
         network,
     );
     Some(address.to_string())
+}
+
+/// Checks for `OP_m <key>{n} OP_n OP_CHECKMULTISIG` with 1 <= m <= n <= 16.
+/// `Script::is_multisig` counts the keys in a `u8` and accepts any opcode in place of `OP_n`,
+/// so bound the number of instructions and check that opcode here.
+fn is_bare_multisig(script: &Script) -> bool {
+    let bytes = script.as_bytes();
+    script.instructions().take(20).count() <= 19
+        && script.is_multisig()
+        && matches!(bytes[bytes.len() - 2], 0x51..=0x60)
 }
 
 /// Checks whether a script is trivially known to have no satisfying input.
